@@ -238,6 +238,75 @@ pub fn families(thorough: bool) -> Vec<Family> {
     let mut if_units: Vec<String> = units.clone();
     if_units.extend(["VX", "T", "A", "B", "/begin B", "/end B", "1", "65536", "\"abcdefgh\""].iter().map(|s| s.to_string()));
     f.push(seq_family(&format!("soup<={k} inside IF_DATA"), if_units, k, " ", Some((pre_if, post_if)), two.clone()));
+    {
+        let mut u2 = units.clone();
+        u2.extend(["/begin A2ML", "/end A2ML", "/begin IF_DATA", "/end IF_DATA", "/begin MEASUREMENT", " "].iter().map(|s| s.to_string()));
+        f.push(seq_family(&format!("soup<={k} inside MODULE, unspaced"), u2, k, "", Some((pre.clone(), post.clone())), one.clone()));
+    }
+    {
+        let pre_if = format!("{pre}/begin A2ML {VALID_SPEC} /end A2ML /begin IF_DATA ");
+        let post_if = format!(" /end IF_DATA{post}");
+        let mut if_units: Vec<String> = units.clone();
+        if_units.extend(["VX", "T", "1", "/begin B", "/end B", "/begin A2ML", "/end A2ML", "/begin IF_DATA", "/end IF_DATA", " "].iter().map(|s| s.to_string()));
+        f.push(seq_family(&format!("soup<={k} inside IF_DATA, unspaced"), if_units, k, "", Some((pre_if, post_if)), two.clone()));
+    }
+    // error-context windows: an error-triggering construct, k bytes of padding, a multi-byte
+    // character, more text - the multi-byte character sits at every offset 0..24 behind the construct
+    {
+        let triggers: Vec<&'static str> = vec!["/x", "/Begin", "$", "0x", "-", ".", "\"", "/*", "1abc", "0x1G", "/include", "/include \"", "@", "ASAP2_VERSION 1 71 /begin PROJECT", "/begin A2ML ", "/begin A2ML \"", "/begin A2ML /*", "/begin A2ML block \"IF_DATA\" struct { uint; ", "\\", "#"];
+        let chars: Vec<&'static str> = vec!["é", "€", "😀", "\u{FFFD}"];
+        let n = triggers.len() * 25 * chars.len() * 2;
+        f.push(Family {
+            name: "error-context windows".into(),
+            count: n,
+            gen: Box::new(move |i| {
+                let tail = i % 2;
+                let c = chars[(i / 2) % chars.len()];
+                let pad = (i / 2 / chars.len()) % 25;
+                let t = triggers[i / 2 / chars.len() / 25];
+                let mut s = String::from(t);
+                for j in 0..pad {
+                    s.push((b'a' + (j % 26) as u8) as char);
+                }
+                s.push_str(c);
+                if tail == 1 {
+                    s.push_str("xxxxxxxxxxxxxxxx\n/end A2ML \" */");
+                }
+                s.into_bytes()
+            }),
+            configs: str_cfgs.clone(),
+        });
+    }
+    // a multi-byte character inserted at every byte offset of every document
+    {
+        let texts = std::sync::Arc::new(doc_texts(thorough));
+        let mut idx: Vec<(usize, usize, usize)> = Vec::new();
+        for (di, t) in texts.iter().enumerate() {
+            if !thorough && di % 4 != 0 {
+                continue;
+            }
+            for pos in 0..=t.len() {
+                if t.is_char_boundary(pos) {
+                    for c in 0..2 {
+                        idx.push((di, pos, c));
+                    }
+                }
+            }
+        }
+        let idx = std::sync::Arc::new(idx);
+        let n = idx.len();
+        f.push(Family {
+            name: "multi-byte character inserted at every offset of documents".into(),
+            count: n,
+            gen: Box::new(move |i| {
+                let (di, pos, c) = idx[i];
+                let mut s = texts[di].clone();
+                s.insert_str(pos, ["é", "😀"][c]);
+                s.into_bytes()
+            }),
+            configs: two.clone(),
+        });
+    }
     // (3) every byte prefix of every document, (4) token deletion / duplication / swap
     let texts = std::sync::Arc::new(doc_texts(thorough));
     let mut prefix_index: Vec<(usize, usize)> = Vec::new();
